@@ -1325,6 +1325,8 @@ impl StorageEngine {
             .knowledge_graphs
             .get(kg)
             .ok_or_else(|| StorageError::KnowledgeGraphNotFound(kg.to_string()))?;
+        #[cfg(feature = "verif-hooks")]
+        crate::verif_hooks::before_lock("se.with_kg_read.kg_read", &|| db.try_read().is_some());
         let db = db.read();
         f(&db).map_err(StorageError::Other)
     }
